@@ -1210,86 +1210,223 @@ var defectNames = []string{"no-tasks", "dup-task-name", "task-minavail-gt-replic
 	"queue-missing", "queue-not-open", "queue-root", "queue-not-leaf", "deps-cycle", "deps-self", "deps-dangling", "deps-duplicate",
 	"bad-template", "bad-task-name", "bad-job-name", "partition-total", "partition-size", "partition-replicas", "partition-minavail",
 	"partition-nt-conflict", "job-nt-conflict", "negative-replicas", "replica-overflow", "dotted-task-name", "exitcode-bad-action",
-	"explicit-default-name", "partition-overflow", "partition-negative-min", "mpi-unparsable-args", "mpi-unparsable-args-default-master"}
+	"explicit-default-name", "partition-overflow", "partition-negative-min", "mpi-unparsable-args", "mpi-unparsable-args-default-master",
+	"same-trigger-job-and-task", "same-trigger-two-tasks"}
 
-// policy lists validatePolicies must refuse.  Each class comes with the
-// offending value in the singular field, in the plural field, and in the singular
-// field of a policy whose plural field is legal (and vice versa).
+func perm(r *vh.Rng, n int) []int {
+	out := make([]int, n)
+	for i := range out {
+		out[i] = i
+	}
+	for i := n - 1; i > 0; i-- {
+		k := r.Intn(i + 1)
+		out[i], out[k] = out[k], out[i]
+	}
+	return out
+}
+
+func insertAt[T any](r *vh.Rng, xs []T, x T) []T {
+	i := r.Intn(len(xs) + 1)
+	out := append([]T{}, xs[:i]...)
+	out = append(out, x)
+	return append(out, xs[i:]...)
+}
+
+// a legal policy list without '*' that has at least one event policy and one exit-code policy
+func genBasePolicies(r *vh.Rng) []mPolicy {
+	for {
+		ps := genPolicies(r)
+		star, ev := false, false
+		for _, p := range ps {
+			for _, e := range polEvents(p) {
+				if e == 1 {
+					star = true
+				}
+				ev = true
+			}
+		}
+		if star {
+			continue
+		}
+		if !ev {
+			ps = insertAt(r, ps, mPolicy{Action: int64(r.Range(1, 8)), Event: int64(r.Range(2, 8))})
+		}
+		hasExit := false
+		for _, p := range ps {
+			if p.Exit != nil {
+				hasExit = true
+			}
+		}
+		if !hasExit && r.Chance(1, 2) {
+			ps = insertAt(r, ps, mPolicy{Action: int64(r.Range(1, 8)), Exit: p64(int64(vh.Pick(r, []int{4, 5, 6})))})
+		}
+		return ps
+	}
+}
+
+func polEvents(p mPolicy) []int64 {
+	out := append([]int64{}, p.Events...)
+	if p.Event != 0 {
+		out = append(out, p.Event)
+	}
+	return out
+}
+
+// an event policy carrying `must` (somewhere) and possibly one unused legal event, in a random
+// shape: singular only / plural only / both with `must` in the singular / both with it in the plural
+func policyWith(r *vh.Rng, must int64, free []int64) mPolicy {
+	p := mPolicy{Action: int64(r.Range(1, 8)), Timeout: int64(vh.Pick(r, []int{0, 0, 30}))}
+	other := int64(0)
+	if len(free) > 0 {
+		other = free[r.Intn(len(free))]
+	}
+	switch r.Intn(5) {
+	case 0:
+		p.Event = must
+	case 1:
+		p.Events = []int64{must}
+	case 2:
+		p.Event = must
+		if other != 0 {
+			p.Events = []int64{other}
+		}
+	case 3:
+		p.Events = []int64{must}
+		if other != 0 {
+			p.Event = other
+		}
+	default:
+		p.Events = []int64{must}
+		if other != 0 {
+			p.Events = insertAt(r, p.Events, other)
+		}
+	}
+	return p
+}
+
+// put event e into an existing policy: its singular field when that is free, else a random
+// position of its plural field
+func addEventTo(r *vh.Rng, p *mPolicy, e int64) {
+	if p.Event == 0 && r.Chance(1, 2) {
+		p.Event = e
+		return
+	}
+	p.Events = insertAt(r, append([]int64{}, p.Events...), e)
+}
+
+// policy lists validatePolicies must refuse: a legal list with ONE defect whose position in the
+// list, position inside the policy, and field (event / events / exitCode) are drawn independently
 func badPolicies(r *vh.Rng, kind string) []mPolicy {
-	e := int64(r.Range(2, 8))
-	f := e%7 + 2 // another allowed event, 2..8, != e
-	g := f%7 + 2
-	if g == e {
-		g = g%7 + 2
+	ps := genBasePolicies(r)
+	var evIdx, exIdx []int
+	used := map[int64]bool{}
+	for i, p := range ps {
+		if p.Exit != nil {
+			exIdx = append(exIdx, i)
+		} else {
+			evIdx = append(evIdx, i)
+		}
+		for _, e := range polEvents(p) {
+			used[e] = true
+		}
+	}
+	var free, usedL []int64
+	for e := int64(2); e <= 8; e++ {
+		if used[e] {
+			usedL = append(usedL, e)
+		} else {
+			free = append(free, e)
+		}
 	}
 	internal := int64(vh.Pick(r, []int{9, 10, 11, 12}))
 	switch kind {
 	case "bad-event":
-		switch r.Intn(5) {
-		case 0:
-			return []mPolicy{{Action: 1, Event: internal}}
-		case 1:
-			return []mPolicy{{Action: 1, Events: []int64{e, int64(vh.Pick(r, []int{0, 9, 12}))}}}
-		case 2:
-			return []mPolicy{{Action: 1, Event: internal, Events: []int64{e}}} // illegal part only in `event`
-		case 3:
-			return []mPolicy{{Action: 1, Event: e, Events: []int64{f, internal}}}
-		default:
-			return []mPolicy{{Action: 1, Events: []int64{internal}}}
+		bad := internal
+		if r.Chance(1, 3) {
+			// into an existing policy; the empty string can only sit in the plural field
+			q := &ps[evIdx[r.Intn(len(evIdx))]]
+			if r.Chance(1, 4) {
+				q.Events = insertAt(r, append([]int64{}, q.Events...), 0)
+			} else {
+				addEventTo(r, q, bad)
+			}
+			return ps
 		}
+		return insertAt(r, ps, policyWith(r, bad, free))
 	case "bad-action":
-		a := int64(vh.Pick(r, []int{0, 9, 10, 13, 14}))
-		switch r.Intn(3) {
-		case 0:
-			return []mPolicy{{Action: a, Event: int64(r.Range(1, 8))}}
-		case 1:
-			return []mPolicy{{Action: a, Events: []int64{e, f}}}
-		default:
-			return []mPolicy{{Action: 2, Event: e}, {Action: a, Event: f, Events: []int64{g}}}
-		}
+		ps[evIdx[r.Intn(len(evIdx))]].Action = int64(vh.Pick(r, []int{0, 9, 10, 13, 14}))
+		return ps
 	case "event-and-exitcode":
-		switch r.Intn(3) {
-		case 0:
-			return []mPolicy{{Action: 2, Event: e, Exit: p64(3)}}
-		case 1:
-			return []mPolicy{{Action: 2, Events: []int64{e}, Exit: p64(3)}}
-		default:
-			return []mPolicy{{Action: 2, Event: e, Events: []int64{f}, Exit: p64(3)}}
+		if len(exIdx) > 0 && r.Chance(1, 2) {
+			// an exit-code policy gains a trigger
+			q := &ps[exIdx[r.Intn(len(exIdx))]]
+			e := int64(r.Range(2, 8))
+			if len(free) > 0 {
+				e = free[r.Intn(len(free))]
+			}
+			addEventTo(r, q, e)
+		} else {
+			ps[evIdx[r.Intn(len(evIdx))]].Exit = p64(int64(vh.Pick(r, []int{3, 9, 0})))
 		}
+		return ps
 	case "empty-policy":
-		return []mPolicy{{Action: 2, Timeout: int64(vh.Pick(r, []int{0, 30}))}}
+		return insertAt(r, ps, mPolicy{Action: int64(r.Range(1, 8)), Timeout: int64(vh.Pick(r, []int{0, 30}))})
 	case "dup-event":
-		switch r.Intn(5) {
-		case 0:
-			return []mPolicy{{Action: 2, Event: e}, {Action: 3, Events: []int64{e}}}
-		case 1:
-			return []mPolicy{{Action: 2, Event: e}, {Action: 3, Event: e, Events: []int64{f}}} // duplicate only in `event`
-		case 2:
-			return []mPolicy{{Action: 2, Events: []int64{e, f}}, {Action: 3, Event: g, Events: []int64{e}}}
-		case 3:
-			return []mPolicy{{Action: 2, Event: e, Events: []int64{f}}, {Action: 3, Event: f}}
-		default:
-			return []mPolicy{{Action: 2, Events: []int64{f}}, {Action: 3, Exit: p64(9)}, {Action: 3, Event: f, Events: []int64{g}}}
+		e := usedL[r.Intn(len(usedL))]
+		if len(evIdx) >= 2 && r.Chance(1, 3) {
+			// into another existing policy that does not have it yet
+			for _, k := range perm(r, len(evIdx)) {
+				q := &ps[evIdx[k]]
+				has := false
+				for _, x := range polEvents(*q) {
+					if x == e {
+						has = true
+					}
+				}
+				if !has {
+					addEventTo(r, q, e)
+					return ps
+				}
+			}
 		}
+		return insertAt(r, ps, policyWith(r, e, free)) // before or after the policy that owns e
 	case "any-with-others":
-		switch r.Intn(5) {
-		case 0:
-			return []mPolicy{{Action: 2, Event: 1}, {Action: 3, Event: e}}
-		case 1:
-			return []mPolicy{{Action: 2, Events: []int64{e, 1}}}
-		case 2:
-			return []mPolicy{{Action: 2, Event: 1, Events: []int64{e}}} // '*' only in `event`
-		case 3:
-			return []mPolicy{{Action: 2, Events: []int64{e}}, {Action: 3, Event: 1, Events: []int64{f}}}
-		default:
-			return []mPolicy{{Action: 2, Event: e, Events: []int64{1}}}
+		if r.Chance(1, 2) {
+			addEventTo(r, &ps[evIdx[r.Intn(len(evIdx))]], 1)
+			return ps
 		}
+		return insertAt(r, ps, policyWith(r, 1, nil))
 	case "exitcode-zero":
-		return []mPolicy{{Action: 2, Exit: p64(0)}}
+		if len(exIdx) > 0 && r.Chance(1, 2) {
+			ps[exIdx[r.Intn(len(exIdx))]].Exit = p64(0)
+			return ps
+		}
+		return insertAt(r, ps, mPolicy{Action: int64(r.Range(1, 8)), Exit: p64(0)})
 	case "dup-exitcode":
-		return []mPolicy{{Action: 2, Exit: p64(7)}, {Action: 3, Event: e, Events: []int64{f}}, {Action: 3, Exit: p64(7)}}
+		if len(exIdx) == 0 {
+			ps = insertAt(r, ps, mPolicy{Action: int64(r.Range(1, 8)), Exit: p64(7)})
+			for i, p := range ps {
+				if p.Exit != nil {
+					exIdx = append(exIdx, i)
+				}
+			}
+		}
+		c := *ps[exIdx[r.Intn(len(exIdx))]].Exit
+		return insertAt(r, ps, mPolicy{Action: int64(r.Range(1, 8)), Exit: p64(c)})
 	}
 	panic(kind)
+}
+
+func genVolKind(r *vh.Rng, mount int64, inline bool) mVol {
+	if inline {
+		return mVol{Mount: mount, Claim: p64(int64(r.Range(1, 3)))}
+	}
+	return mVol{Mount: mount, CName: int64(r.Range(1, 3))}
+}
+
+func insertDep(r *vh.Rng, t *mTask, d int64) {
+	t.HasDeps = true
+	t.Deps = insertAt(r, append([]int64{}, t.Deps...), d)
 }
 
 // inject one defect into a valid job; returns false when the defect does not
@@ -1325,15 +1462,22 @@ func inject(r *vh.Rng, j *mJob, kind string) bool {
 		t.Policies = badPolicies(r, vh.Pick(r, []string{"bad-event", "bad-action", "event-and-exitcode", "empty-policy", "dup-event",
 			"any-with-others", "exitcode-zero", "dup-exitcode"}))
 	case "volume-no-mount":
-		j.Vols = append(j.Vols, mVol{Mount: 0, CName: 1})
+		j.Vols = insertAt(r, j.Vols, genVolKind(r, 0, r.Chance(1, 2)))
 	case "volume-dup-mount":
-		j.Vols = append(j.Vols, mVol{Mount: 7, CName: 1}, mVol{Mount: 7, Claim: p64(2)})
+		// the two colliding volumes: kinds (named / inline) and positions drawn independently;
+		// either a new pair, or a new volume colliding with one the job already has
+		if len(j.Vols) > 0 && r.Chance(1, 2) {
+			j.Vols = insertAt(r, j.Vols, genVolKind(r, j.Vols[r.Intn(len(j.Vols))].Mount, r.Chance(1, 2)))
+		} else {
+			j.Vols = insertAt(r, j.Vols, genVolKind(r, 7, r.Chance(1, 2)))
+			j.Vols = insertAt(r, j.Vols, genVolKind(r, 7, r.Chance(1, 2)))
+		}
 	case "volume-neither":
-		j.Vols = append(j.Vols, mVol{Mount: 8})
+		j.Vols = insertAt(r, j.Vols, mVol{Mount: 8})
 	case "volume-both":
-		j.Vols = append(j.Vols, mVol{Mount: 8, CName: 2, Claim: p64(1)})
+		j.Vols = insertAt(r, j.Vols, mVol{Mount: 8, CName: int64(r.Range(1, 3)), Claim: p64(1)})
 	case "volume-bad-claimname":
-		j.Vols = append(j.Vols, mVol{Mount: 8, CName: 10})
+		j.Vols = insertAt(r, j.Vols, mVol{Mount: 8, CName: 10})
 	case "unknown-plugin":
 		j.HasPlugins = true
 		j.Plugins = append(j.Plugins, mPlugin{Name: int64(r.Range(9, 10))})
@@ -1365,44 +1509,61 @@ func inject(r *vh.Rng, j *mJob, kind string) bool {
 		if n < 2 {
 			return false
 		}
-		// close a cycle through ti and another task
-		k := (ti + 1 + r.Intn(n-1)) % n
-		t.HasDeps = true
-		t.Deps = append(t.Deps, j.Tasks[k].Name)
-		j.Tasks[k].HasDeps = true
-		j.Tasks[k].Deps = append(j.Tasks[k].Deps, t.Name)
+		// a directed cycle of random length through randomly chosen tasks, on top of the DAG
+		perm := perm(r, n)
+		l := r.Range(2, n)
+		for k := 0; k < l; k++ {
+			from := &j.Tasks[perm[k]]
+			on := j.Tasks[perm[(k+1)%l]].Name
+			present := false
+			for _, d := range from.Deps {
+				if d == on {
+					present = true
+				}
+			}
+			if !present {
+				insertDep(r, from, on)
+			}
+			from.HasDeps = true
+		}
 	case "deps-self":
-		t.HasDeps = true
-		t.Deps = append(t.Deps, t.Name)
+		insertDep(r, t, t.Name)
 	case "deps-dangling":
-		t.HasDeps = true
-		d := int64(vh.Pick(r, []int{20, 21, 1000, 1001}))
-		t.Deps = append(t.Deps, d)
+		// a name no task has: an unused ordinary name, an invalid one, or a default<k> name
+		cands := []int64{20, 21, 1000, 1001}
+		for id := int64(1); id <= 9; id++ {
+			usedName := false
+			for _, x := range j.Tasks {
+				if x.Name == id {
+					usedName = true
+				}
+			}
+			if !usedName {
+				cands = append(cands, id, id)
+			}
+		}
+		insertDep(r, t, cands[r.Intn(len(cands))])
 	case "deps-duplicate":
 		if n < 2 {
 			return false
 		}
-		// a dependency listed twice: acyclic, yet topoSort counts it twice
-		var first *mTask
+		// a dependency listed twice (second copy anywhere in the list): acyclic, yet counted twice
+		var with []int
 		for i := range j.Tasks {
-			isDepFree := !j.Tasks[i].HasDeps || len(j.Tasks[i].Deps) == 0
-			if isDepFree {
-				first = &j.Tasks[i]
-				break
+			if len(j.Tasks[i].Deps) > 0 {
+				with = append(with, i)
 			}
 		}
-		if first == nil {
-			return false
+		if len(with) > 0 {
+			x := &j.Tasks[with[r.Intn(len(with))]]
+			insertDep(r, x, x.Deps[r.Intn(len(x.Deps))])
+			return true
 		}
-		for i := range j.Tasks {
-			x := &j.Tasks[i]
-			if x != first && (!x.HasDeps || len(x.Deps) == 0) {
-				x.HasDeps = true
-				x.Deps = []int64{first.Name, first.Name}
-				return true
-			}
-		}
-		return false
+		// no edge yet: the dependency-free job gets one doubled edge between two random tasks
+		a := r.Intn(n)
+		b := (a + 1 + r.Intn(n-1)) % n
+		j.Tasks[a].HasDeps = true
+		j.Tasks[a].Deps = []int64{j.Tasks[b].Name, j.Tasks[b].Name}
 	case "bad-template":
 		t.Tm = int64(r.Range(10, 13))
 	case "bad-task-name":
@@ -1464,6 +1625,18 @@ func inject(r *vh.Rng, j *mJob, kind string) bool {
 		renameRefs(j, old, 9)
 	case "exitcode-bad-action":
 		j.Policies = []mPolicy{{Action: int64(vh.Pick(r, []int{0, 9, 14})), Exit: p64(3)}}
+	case "same-trigger-job-and-task":
+		// the same events / exit codes at job level and at task level do not collide
+		ps := genBasePolicies(r)
+		j.Policies = ps
+		t.Policies = append([]mPolicy{}, ps...)
+	case "same-trigger-two-tasks":
+		if n < 2 {
+			return false
+		}
+		ps := genBasePolicies(r)
+		t.Policies = ps
+		j.Tasks[(ti+1+r.Intn(n-1))%n].Policies = append([]mPolicy{}, ps...)
 	case "partition-overflow":
 		// 65536*65536 wraps to 0 in int32: replicas 0 "equals" totalPartitions*partitionSize
 		t.Part = &mPart{65536, 65536, int64(vh.Pick(r, []int{0, 65536})), 0}
@@ -1582,7 +1755,7 @@ func genUpdate(r *vh.Rng, cur mJob) (mJob, string) {
 	kind := vh.Pick(r, []string{"replicas", "replicas", "replicas", "replicas-bad", "job-minavail", "job-minavail-bad", "prio", "prio",
 		"identity", "task-name", "template", "policies", "queue", "deps", "volume-mount", "plugin", "maxretry", "sched", "rest", "nt",
 		"add-task", "remove-task", "claimname-fill", "claimname-change", "plugins-empty", "task-maxretry", "partition", "combo", "combo",
-		"policy-timeout", "policy-event-to-events", "iteration", "claim-spec", "plugin-args"})
+		"policy-timeout", "policy-event-to-events", "iteration", "claim-spec", "plugin-args", "task-swap", "task-swap"})
 	switch kind {
 	case "replicas", "combo":
 		if t.Part != nil {
@@ -1659,14 +1832,40 @@ func genUpdate(r *vh.Rng, cur mJob) (mJob, string) {
 			t.Deps = nil
 		}
 	case "volume-mount":
-		if len(n.Vols) == 0 {
-			n.Vols = append(n.Vols, mVol{Mount: 5, CName: 1})
-		} else {
-			n.Vols[0].Mount = 9
+		switch {
+		case len(n.Vols) == 0 || r.Chance(1, 4):
+			n.Vols = insertAt(r, n.Vols, genVolKind(r, 5, r.Chance(1, 2))) // a volume appears, anywhere
+		case r.Chance(1, 3):
+			k := r.Intn(len(n.Vols)) // a volume disappears
+			n.Vols = append(append([]mVol{}, n.Vols[:k]...), n.Vols[k+1:]...)
+		case len(n.Vols) >= 2 && r.Chance(1, 2):
+			a, b := r.Intn(len(n.Vols)), r.Intn(len(n.Vols)) // two volumes trade places
+			n.Vols[a], n.Vols[b] = n.Vols[b], n.Vols[a]
+		default:
+			k := r.Intn(len(n.Vols)) // one mount path changes, possibly onto another volume's path
+			n.Vols[k].Mount = int64(vh.Pick(r, []int{9, 1, 2, 3}))
 		}
 	case "plugin":
 		n.HasPlugins = true
-		n.Plugins = []mPlugin{{Name: 2, Args: int64(r.Intn(4))}}
+		switch {
+		case len(n.Plugins) > 0 && r.Chance(1, 3):
+			k := r.Intn(len(n.Plugins)) // one plugin removed
+			n.Plugins = append(append([]mPlugin{}, n.Plugins[:k]...), n.Plugins[k+1:]...)
+		case r.Chance(1, 2):
+			id := int64(r.Range(1, 8)) // one plugin added (ascending order kept)
+			dup := false
+			for _, q := range n.Plugins {
+				if q.Name == id {
+					dup = true
+				}
+			}
+			if !dup && id != 5 {
+				n.Plugins = append(n.Plugins, mPlugin{Name: id})
+				sort.Slice(n.Plugins, func(a, b int) bool { return n.Plugins[a].Name < n.Plugins[b].Name })
+			}
+		default:
+			n.Plugins = []mPlugin{{Name: 2, Args: int64(r.Intn(4))}}
+		}
 	case "maxretry":
 		n.MaxRetry = cur.MaxRetry + 1
 	case "task-maxretry":
@@ -1678,19 +1877,32 @@ func genUpdate(r *vh.Rng, cur mJob) (mJob, string) {
 	case "nt":
 		n.NT = (cur.NT + 1) % 4
 	case "add-task":
-		n.Tasks = append(n.Tasks, mTask{Name: 8, Replicas: 1, Tm: 1, MinAvail: p64(1), MaxRetry: 3})
+		nt := mTask{Name: 8, Replicas: 1, Tm: 1, MinAvail: p64(1), MaxRetry: 3}
+		if r.Chance(1, 3) {
+			nt = n.Tasks[ti] // a copy of an existing task
+		}
+		n.Tasks = insertAt(r, n.Tasks, nt)
 	case "remove-task":
-		n.Tasks = n.Tasks[:len(n.Tasks)-1]
+		n.Tasks = append(append([]mTask{}, n.Tasks[:ti]...), n.Tasks[ti+1:]...)
+	case "task-swap":
+		// two tasks trade places (a no-op only if they are equal up to replicas / minAvailable)
+		if len(n.Tasks) >= 2 {
+			k := (ti + 1 + r.Intn(len(n.Tasks)-1)) % len(n.Tasks)
+			n.Tasks[ti], n.Tasks[k] = n.Tasks[k], n.Tasks[ti]
+		} else {
+			n.Prio = int64(r.Intn(3))
+		}
 	case "claimname-fill":
-		for i := range n.Vols {
-			if n.Vols[i].Claim != nil {
+		// any subset of the inline volumes, wherever they sit among named ones
+		for _, i := range perm(r, len(n.Vols)) {
+			if n.Vols[i].Claim != nil && r.Chance(2, 3) {
 				n.Vols[i].CName = int64(vh.Pick(r, []int{0, 1, 2, 3}))
 			}
 		}
 	case "claimname-change":
 		hit := false
-		for i := range n.Vols {
-			if n.Vols[i].Claim == nil {
+		for _, i := range perm(r, len(n.Vols)) {
+			if n.Vols[i].Claim == nil && (!hit || r.Chance(1, 3)) {
 				n.Vols[i].CName = n.Vols[i].CName%3 + 1
 				hit = true
 			}
@@ -1705,21 +1917,32 @@ func genUpdate(r *vh.Rng, cur mJob) (mJob, string) {
 		}
 	case "policy-timeout":
 		// only the timeout of one policy changes
-		if len(n.Policies) > 0 {
-			n.Policies = append([]mPolicy{}, cur.Policies...)
-			n.Policies[0].Timeout = cur.Policies[0].Timeout + 5
-		} else {
+		switch {
+		case len(t.Policies) > 0 && r.Chance(1, 2):
+			t.Policies = append([]mPolicy{}, t.Policies...) // task level, any position
+			t.Policies[r.Intn(len(t.Policies))].Timeout += 5
+		case len(n.Policies) > 0:
+			n.Policies = append([]mPolicy{}, cur.Policies...) // job level, any position
+			n.Policies[r.Intn(len(n.Policies))].Timeout += 5
+		default:
 			n.Policies = []mPolicy{{Action: 2, Event: 2, Timeout: 5}}
 		}
 	case "policy-event-to-events":
 		// same trigger set, written in the other field: the spec differs all the same
 		hit := false
 		n.Policies = append([]mPolicy{}, cur.Policies...)
-		for i := range n.Policies {
-			if n.Policies[i].Event != 0 && !hit {
-				n.Policies[i].Events = append(append([]int64{}, n.Policies[i].Events...), n.Policies[i].Event)
-				n.Policies[i].Event = 0
-				hit = true
+		t.Policies = append([]mPolicy{}, t.Policies...)
+		lists := [][]mPolicy{n.Policies, t.Policies}
+		if r.Chance(1, 2) {
+			lists[0], lists[1] = lists[1], lists[0]
+		}
+		for _, l := range lists {
+			for _, i := range perm(r, len(l)) {
+				if l[i].Event != 0 && !hit {
+					l[i].Events = insertAt(r, append([]int64{}, l[i].Events...), l[i].Event)
+					l[i].Event = 0
+					hit = true
+				}
 			}
 		}
 		if !hit {
@@ -1733,8 +1956,8 @@ func genUpdate(r *vh.Rng, cur mJob) (mJob, string) {
 		}
 	case "claim-spec":
 		hit := false
-		for i := range n.Vols {
-			if n.Vols[i].Claim != nil {
+		for _, i := range perm(r, len(n.Vols)) {
+			if n.Vols[i].Claim != nil && (!hit || r.Chance(1, 3)) {
 				n.Vols[i].Claim = p64(*n.Vols[i].Claim%3 + 1)
 				hit = true
 			}
@@ -1744,7 +1967,8 @@ func genUpdate(r *vh.Rng, cur mJob) (mJob, string) {
 		}
 	case "plugin-args":
 		if len(n.Plugins) > 0 {
-			n.Plugins[0].Args = (n.Plugins[0].Args + 1) % 4
+			k := r.Intn(len(n.Plugins))
+			n.Plugins[k].Args = (n.Plugins[k].Args + 1) % 4
 		} else {
 			n.Prio = int64(r.Intn(3))
 		}
